@@ -97,7 +97,7 @@ const T_BAR: u8 = 2;
 const T_JWK: u8 = 4;
 /// a decoy handler `foo-old` is attached for `foo` first and then replaced by the real one
 const T_REPLACED: u8 = 8;
-/// a harness handler `jwk-custom` is attached for `jwk` BEFORE `attach_did_jwk_handler` (which of the two answers is not documented: recorded)
+/// a harness handler `jwk-custom` is attached for `jwk` BEFORE `attach_did_jwk_handler` (the later attachment replaces it)
 const T_JWKC_FIRST: u8 = 16;
 /// `jwk-custom` is attached with `attach_handler` AFTER `attach_did_jwk_handler` (documented: the later handler replaces)
 const T_JWKC_LAST: u8 = 32;
@@ -406,7 +406,10 @@ fn expect(cfg: &Cfg, did: &str) -> Exp {
     "foo" if cfg.table & T_FOO != 0 => Exp::Handler { name: "foo", fails: did == FAILING_DID && cfg.fail_at.is_some(), gates: cfg.k_foo },
     "bar" if cfg.table & T_BAR != 0 => Exp::Handler { name: "bar", fails: false, gates: cfg.k_bar },
     "jwk" if cfg.table & T_JWKC_LAST != 0 => Exp::Handler { name: "jwk-custom", fails: false, gates: cfg.k_bar },
-    "jwk" if cfg.table & T_JWKC_FIRST != 0 && cfg.table & T_JWK != 0 => Exp::JwkEither,
+    // `attach_did_jwk_handler` "attaches a handler capable of resolving did:jwk DIDs" and attaching is documented as
+    // replacing ("If there already exists a handler for this method then it will be replaced with the new handler"):
+    // after it returns, the built-in handler is the one registered for `jwk`
+    "jwk" if cfg.table & T_JWKC_FIRST != 0 && cfg.table & T_JWK != 0 => Exp::Jwk,
     "jwk" if cfg.table & T_JWKC_FIRST != 0 => Exp::Handler { name: "jwk-custom", fails: false, gates: cfg.k_bar },
     "jwk" if cfg.table & T_JWK != 0 => Exp::Jwk,
     "qux" => Exp::Unparsable,
